@@ -11,7 +11,10 @@ import (
 	"sync"
 	"time"
 
+	"strings"
+
 	"github.com/fullstorydev/grpchan/httpgrpc"
+	"github.com/fullstorydev/grpchan/inprocgrpc"
 	"google.golang.org/grpc/codes"
 	"google.golang.org/grpc/metadata"
 	"google.golang.org/grpc/status"
@@ -155,6 +158,13 @@ func extraC03(r *Run) {
 				grpc.SetHeader(ctx, h2)
 				grpc.SetTrailer(ctx, t1)
 				grpc.SetTrailer(ctx, t2)
+				// the handler re-uses its metadata objects afterwards: what it has set must not change with them
+				for _, m := range []metadata.MD{h1, h2, t1, t2} {
+					for k := range m {
+						m[k] = append(m[k], "mutated-after-set")
+					}
+					m["xlate"] = []string{"added-after-set"}
+				}
 				if fail {
 					return status.Error(codes.Aborted, "scripted failure")
 				}
@@ -249,6 +259,10 @@ func extraC03(r *Run) {
 			smu.Unlock()
 			check := func(what string, want metadata.MD, gots ...metadata.MD) {
 				for gi, g := range gots {
+					if len(g["xlate"]) > 0 {
+						r.Violate(tp.name+"/metadata/"+what+"-aliases-handler-map"+suffix, "every header and trailer pair the handler sets is visible to the caller unaltered (the library keeps its own copy: later changes to the handler's metadata object are not part of what was set)", sprintf("%s target %d contains a key the handler added to its map only after calling Set%s", what, gi, what), c, mdHex(g))
+						return
+					}
 					if ok, why := subsetMD(want, g); !ok {
 						r.Violate(tp.name+"/metadata/"+what+"-altered"+suffix, "every header and trailer pair the handler sets is visible to the caller through Header()/Trailer() and through every grpc.Header/grpc.Trailer call option supplied", sprintf("%s target %d: %s", what, gi, why), c, mdHex(g))
 						return
@@ -295,7 +309,81 @@ func recvOnly(cs grpc.ClientStream, out chan<- string) {
 // extraC04: a call whose context is NOT done must never be reported as Canceled. The HTTP channel
 // attaches a cancelling finalizer to the stream object it returns; a garbage collection during a
 // blocking RecvMsg that is the caller's last use of the stream must not cancel the call.
+// shortTimeoutTransport forwards a smaller GRPC-Timeout than the caller's deadline implies, so that the
+// server-side timer fires while the caller's context is still live.
+type shortTimeoutTransport struct {
+	inner http.RoundTripper
+	value string
+}
+
+func (t shortTimeoutTransport) RoundTrip(req *http.Request) (*http.Response, error) {
+	req = req.Clone(req.Context())
+	req.Header.Set("GRPC-Timeout", t.value)
+	return t.inner.RoundTrip(req)
+}
+
+// serverSideDeadline: the deadline carried by GRPC-Timeout expires on the server first; a handler that
+// honours its context returns the context error; the caller (whose own context is still live) must see
+// a DeadlineExceeded status — not a truncated stream.
+func serverSideDeadline(r *Run) {
+	for i := 0; i < r.Budget(4, 40); i++ {
+		kind := []string{"sstream", "bidi", "unary", "cstream"}[i%4]
+		svr := &scriptServer{}
+		wait := func(ctx context.Context) error {
+			select {
+			case <-ctx.Done():
+				return ctx.Err()
+			case <-time.After(5 * time.Second):
+				return nil
+			}
+		}
+		svr.unary = func(ctx context.Context, req *Msg) (*Msg, error) { return &Msg{}, wait(ctx) }
+		svr.sstream = func(req *Msg, s grpchantesting.TestService_ServerStreamServer) error {
+			s.Send(&Msg{Count: 1})
+			return wait(s.Context())
+		}
+		svr.bidi = func(s grpchantesting.TestService_BidiStreamServer) error { return wait(s.Context()) }
+		svr.cstream = func(s grpchantesting.TestService_ClientStreamServer) error { return wait(s.Context()) }
+		hm := newHTTPMem(svr)
+		hm.ch.Transport = shortTimeoutTransport{inner: hm.tr, value: "30m"}
+		ctx, cancel := context.WithTimeout(context.Background(), 10*time.Second)
+		var err error
+		switch kind {
+		case "unary":
+			err = hm.ch.Invoke(ctx, mUnary, &Msg{}, &Msg{})
+		default:
+			desc, name := descSStream, mSStream
+			if kind == "bidi" {
+				desc, name = descBidi, mBidi
+			} else if kind == "cstream" {
+				desc, name = descCStream, mCStream
+			}
+			var cs grpc.ClientStream
+			cs, err = hm.ch.NewStream(ctx, desc, name)
+			if err == nil {
+				cs.SendMsg(&Msg{})
+				cs.CloseSend()
+				for {
+					var m Msg
+					if err = cs.RecvMsg(&m); err != nil {
+						break
+					}
+				}
+			}
+		}
+		cancel()
+		r.Eval(sprintf("server-deadline %s %d", kind, i), true)
+		r.Count("server-side-deadline:" + kind)
+		if status.Code(err) != codes.DeadlineExceeded {
+			r.Violate("http/"+kind+"/server-deadline-not-status", "if the handler itself returns a context error, the client sees the matching Canceled/DeadlineExceeded code (never a bare io.EOF or other non-status error)",
+				sprintf("the GRPC-Timeout deadline expired on the server, the handler returned its context error; the caller (context still live) saw %v", err),
+				map[string]interface{}{"transport": "http", "kind": kind, "grpc_timeout": "30m", "caller_deadline": "10s"}, canonErr(err))
+		}
+	}
+}
+
 func extraC04(r *Run) {
+	serverSideDeadline(r)
 	for _, tp := range bothTransports() {
 		for i := 0; i < r.Budget(3, 20); i++ {
 			release := make(chan struct{})
@@ -336,6 +424,84 @@ func extraC04(r *Run) {
 					sprintf("a garbage collection during a blocking RecvMsg (the caller's last use of the stream) made it return %s instead of the message the handler sent", res),
 					map[string]interface{}{"transport": tp.name, "kind": "sstream", "script": "NewStream; SendMsg; CloseSend; go RecvMsg (blocking, last use); runtime.GC() x3; handler sends"}, res)
 			}
+		}
+	}
+}
+
+// closeSendRacesBlockedSend (C05): CloseSend issued from a second goroutine while a SendMsg is parked
+// on the full request buffer; then the handler drains. No interleaving may make the library panic
+// (send on / close of a closed channel), and everything must complete.
+func closeSendRacesBlockedSend(r *Run) {
+	for i := 0; i < r.Budget(6, 60); i++ {
+		kind := []string{"bidi", "cstream"}[i%2]
+		csFlag, ssFlag := kindFlags(kind)
+		hl := newHandlerLoop()
+		sd := &grpc.ServiceDesc{ServiceName: "s.S", HandlerType: (*synthHandler)(nil),
+			Streams: []grpc.StreamDesc{{StreamName: "M", ClientStreams: csFlag, ServerStreams: ssFlag, Handler: func(srv interface{}, stream grpc.ServerStream) error { return hl.serve(stream) }}}}
+		ich := &inprocgrpc.Channel{}
+		ich.RegisterService(sd, synthImpl{})
+		eng := newEngine("cs", "cs2", "h")
+		cs, err := ich.NewStream(context.Background(), &grpc.StreamDesc{ClientStreams: csFlag, ServerStreams: ssFlag}, "/s.S/M")
+		if err != nil {
+			eng.close()
+			continue
+		}
+		eng.settle()
+		var log []string
+		rec := func(name string, evs []string) { log = append(log, name+"=>"+strings.Join(evs, ",")) }
+		send := func(id int) func() string {
+			return func() string { return resOf(cs.SendMsg(&Msg{Count: int32(id)})) }
+		}
+		hrecv := func() string {
+			return hl.command(func(ss grpc.ServerStream, ctx context.Context) (string, bool) {
+				var m Msg
+				if err := ss.RecvMsg(&m); err != nil {
+					return resOf(err), false
+				}
+				return sprintf("msg:%d", m.Count), false
+			})
+		}
+		rec("cs.send:1", eng.do("cs", send(1)))
+		rec("cs.send:2", eng.do("cs", send(2))) // parks: the one-slot buffer is full
+		rec("cs2.closesend", eng.do("cs2", func() string { return resOf(cs.CloseSend()) }))
+		for k := 0; k < 3; k++ {
+			if eng.idle("h") {
+				rec("h.recv", eng.do("h", hrecv))
+			}
+		}
+		if eng.idle("cs") && i%3 == 0 {
+			rec("cs.send:3", eng.do("cs", send(3)))
+		}
+		if eng.idle("cs2") {
+			rec("cs2.closesend", eng.do("cs2", func() string { return resOf(cs.CloseSend()) }))
+		}
+		// let the handler return
+		hl.retErr = nil
+		if eng.idle("h") {
+			a := eng.actors["h"]
+			a.busy = true
+			a.ops <- func() string {
+				hl.cmds <- func(ss grpc.ServerStream, ctx context.Context) (string, bool) { return "returned", true }
+				return <-hl.results
+			}
+			rec("h.return", eng.settle())
+		}
+		var busy []string
+		for _, n := range eng.order {
+			if !eng.idle(n) {
+				busy = append(busy, n)
+			}
+		}
+		eng.close()
+		script := strings.Join(log, " ; ")
+		desc := map[string]interface{}{"transport": "inproc", "kind": kind, "script": script}
+		r.Eval("closesend-race "+kind+sprintf("%d", i), true)
+		r.Count("closesend-races-send")
+		if strings.Contains(script, "panic:") {
+			r.Violate("inproc/stream/panic", "no interleaving of client and handler operations makes the library deadlock or panic (for example by sending on or re-closing an internal channel)", "CloseSend from a second goroutine while a SendMsg was parked on the full buffer: "+script, desc, script)
+		}
+		if len(busy) > 0 || eng.hung {
+			r.Violate("inproc/stream/blocked-after-completion", "every operation completes once the handler has returned", sprintf("still blocked: %v", busy), desc, script)
 		}
 	}
 }
